@@ -15,7 +15,7 @@ PROPERTY = "C04"
 ENGINE = "rsim+corruption"
 LEVEL = "fault_enumeration"
 PIN_FIRST = True  # a violation is one damaged image: pin it instead of re-enumerating while shrinking
-RULE = ("case = seeded small pristine archive A (py7zr-written: every codec family, with/without AES, raw/encoded/encrypted header, 1..4 folders, "
+RULE = ("case = seeded small pristine archive A (4 of 5 py7zr-written, 1 of 5 written by the reference writer with per-file CRCs in a C06 layout: every codec family, with/without AES, raw/encoded/encrypted header, 1..4 folders, "
         "150..2500 bytes) with its exact member map; faults at rest: EVERY single-bit flip at every bit position and EVERY truncation length "
         "(exhaustive per archive), plus seeded byte overwrites, bursts <= 32 bits, insert/delete of 1..8 bytes, extension by garbage and block swaps "
         "inside the packed area. Each damaged image D is driven through open+getnames+extractall(factory), open+testzip and open+test (step-budgeted): "
@@ -34,6 +34,22 @@ def plan(tier):
 
 def gen_case(rng: Rng, i: int, tier: str):
     r = rng.sub("k")
+    if i % 5 == 4:
+        # archive produced by the reference writer, with per-file CRCs (the layouts py7zr's own writer never makes)
+        from props import c06
+
+        for attempt in range(20):
+            c = c06.gen_case(rng.sub("ref%d" % attempt), 10 ** 6, tier)
+            if "fixture" in c or not c["members"]:
+                continue
+            c["layout"]["crc"] = "substream"
+            c["layout"]["header_crc"] = True
+            for m in c["members"]:
+                if m.get("content") and m["content"].get("len", 0) > 150:
+                    m["content"]["len"] = 150
+            if any(m["kind"] == "symlink" for m in c["members"]):
+                continue
+            return {"ref": {"members": c["members"], "layout": c["layout"]}, "open": r.pick(["stream", "path"]), "rng": r.randrange(1 << 30), "sampled": 400 if tier == "quick" else 3000}
     fams = gen.COMPRESSORS
     arc = rsess.gen_archive(rng.sub("arc"), tier, maxlen=120, want_dirs=False if r.chance(0.6) else True)
     # stratify the first session's chain over the compressor families and header modes
@@ -218,16 +234,21 @@ def evaluate(py7zr, img, kind, password, model_map, budget, tree_model=None, out
 def run_case(case):
     py7zr = import_py7zr()
     res = {"evals": 0, "violations": [], "faults": {}, "probes": {}, "rejected": {}, "classes": {}, "sim_steps": 0, "extra": {}}
-    built = rsess.build_archive(case["archive"])
+    built = rsess.build_from_ref(case["ref"]) if "ref" in case else rsess.build_archive(case["archive"])
     if built.rejected or built.error is not None or built.image is None or not built.model or len(built.image) > 6000:
         res["extra"]["archive_skipped"] = 1
         res["digest"] = digest_of(["skipped"])
         return res
     img = built.image
     model_map = {m.name: m.data for m in built.model if m.kind != "dir"}
-    chains = [s.get("chain") for s in case["archive"]["sessions"]]
-    hdrs = sorted({s["header"] for s in case["archive"]["sessions"]})
-    cls = {"open": case["open"], "multi": built.nfolders > 1, "encrypted": built.password is not None, "header": case["archive"]["sessions"][-1]["header"]}
+    if "ref" in case:
+        chains = [[{"id": f["id"]} for f in fo["chain"]] for fo in case["ref"]["layout"]["folders"]] or [None]
+        hdrs = [case["ref"]["layout"]["header"]]
+        cls = {"open": case["open"], "multi": built.nfolders > 1, "encrypted": built.password is not None, "header": hdrs[0], "source": "ref7z"}
+    else:
+        chains = [s.get("chain") for s in case["archive"]["sessions"]]
+        hdrs = sorted({s["header"] for s in case["archive"]["sessions"]})
+        cls = {"open": case["open"], "multi": built.nfolders > 1, "encrypted": built.password is not None, "header": case["archive"]["sessions"][-1]["header"]}
     cls.update(gen.dep_flags(chains, None, None))
     budget = 60000 + 60 * len(img) + 8 * sum(len(d) for d in model_map.values())
 
@@ -311,9 +332,9 @@ def pin(case, sub):
 def shrink_candidates(case):
     import copy
 
-    arc = case["archive"]
-    if case.get("only") is not None:
+    if case.get("only") is not None or "ref" in case:
         return
+    arc = case["archive"]
     if len(arc["sessions"]) > 1:
         c = copy.deepcopy(case)
         c["archive"]["sessions"].pop()
@@ -331,4 +352,6 @@ def shrink_candidates(case):
 
 
 def case_class(case):
+    if "ref" in case:
+        return gen.dep_flags([[{"id": f["id"]} for f in fo["chain"]] for fo in case["ref"]["layout"]["folders"]], None, None)
     return gen.dep_flags([s.get("chain") for s in case["archive"]["sessions"]], None, None)
